@@ -239,6 +239,8 @@ RawClauses(ev, preRows, postRows) ==
        <<"C13", "last_obs_unchanged", ev.ev = "genstep" => ev.lastobs_sha[1] = ev.lastobs_sha[2]>>,
        <<"C13", "steps_unchanged", ev.ev = "genstep" => ev.steps_after = ev.steps_before>>,
        <<"C13", "result_shares_no_storage", ~ev.shares_memory>>,
+       \* a State object the caller kept (returned earlier by step) is still what it was when it is used again
+       <<"C13", "kept_state_unchanged_since_returned", "held_same" \in DOMAIN ev => ev.held_same>>,
        <<"C13", "step_installs_that_state", ev.ev = "step" => ev.installed>>,
        <<"C14", "no_other_entropy", Len(ev.entropy) = 0>>,
        <<"C13", "state_not_modified_between_calls", ev.ev = "step" => Len(ev.pre_rows) = 0>>,
@@ -355,7 +357,9 @@ GoalEv ==
     /\ LET ev == Ev  e == ev.env
            rows == ApplyRows(raw[e], ev.pre_rows)
            st == IF RowsWellFormed(rows) THEN Decode(rows) ELSE abs[e] IN
-       Report(Failed(<< <<"C06", "goal_query_any_state", ev.ans <=> Goal(st)>> >>), ev.i)
+       Report(Failed(<< <<"C06", "goal_query_any_state", ev.ans <=> Goal(st)>>,
+                        <<"C13", "kept_state_unchanged_since_returned",
+                          "held_same" \in DOMAIN ev => ev.held_same>> >>), ev.i)
     /\ UNCHANGED <<raw, abs, initRaw, steps, mode, paidVal, paidDisc, prev, grp, ndec, hist>>
     /\ l' = l + 1
 
